@@ -1,5 +1,5 @@
 (* Model/Time.v — executable model of tea-time (DateTime<U>, TimeDelta, Time) as it is in the repo
-   working tree (after the `fix:` commits recorded in KNOWN_FINDINGS.d/C16.txt, C17.txt), and of the
+   working tree (after the `fix:` commits recorded in KNOWN_FINDINGS.d/C16.txt, C17.txt and C15's 3cb9707), and of the
    chrono 0.4 functions it delegates to.  Definitions only.
 
    Anchors (tea-time/src):
@@ -112,14 +112,17 @@ Definition as_cr (u : tunit) (x : Z) : option crdt :=
        end.
 
 (* impl_datetime.rs From<chrono::DateTime<Utc>>: timestamp(), timestamp_millis(), timestamp_micros(),
-   timestamp_nanos_opt().expect("Failed to convert to nanosecond") *)
+   timestamp_nanos_opt().into()  (From<Option<i64>>: None = NaT).  Since repo commit 3cb9707 the nanosecond
+   conversion is total: an instant outside the i64 nanosecond range becomes NaT, it no longer panics.
+   The result type stays `res Z` (always `Ok`, see Proofs/Time.v from_cr_total) so that the operators
+   that chain it with panicking steps read uniformly. *)
 Definition from_cr (u : tunit) (c : crdt) : res Z :=
   match u with
   | Sec => Ok (cr_secs c)
   | Milli => Ok (cr_secs c * 1000 + cr_nanos c / 1000000)
   | Micro => Ok (cr_secs c * 1000000 + cr_nanos c / 1000)
   | Nano => let v := cr_secs c * 1000000000 + cr_nanos c in
-            if in_i64 v then Ok v else Panic OtherPanic
+            Ok (if in_i64 v then v else NaT)
   end.
 
 Definition cr_total_ns (c : crdt) : Z := cr_secs c * 1000000000 + cr_nanos c.
